@@ -14,7 +14,7 @@ KINDS = {
     "C20": ["MembersLostOnRestart", "RemovedStillListed", "MemberMissing", "AddressWrong", "JoinFailed", "RestartFailed", "NodeDied",
             "SearchUnavailable", "PeerUnreachable"],      # every node up, a search through some node fails: a peer hosting a partition is not reached
 }
-SCENARIOS = ["basic", "wiring", "snapshot", "leave", "lagging", "lagging-leave", "joinfail", "lagging-replicas", "joincrash", "rejoin", "leave-boot", "lagging-empty", "dead-leave", "lagging-rejoin", "rejoin-stale", "conf-burst", "lagging-replace"]
+SCENARIOS = ["basic", "wiring", "snapshot", "leave", "lagging", "lagging-leave", "joinfail", "lagging-replicas", "joincrash", "rejoin", "leave-boot", "lagging-empty", "dead-leave", "lagging-rejoin", "rejoin-stale", "conf-burst", "lagging-replace", "paused-replace"]
 
 
 def run_scenarios(ctx, repeat, scenarios=None):
@@ -97,6 +97,35 @@ def reproduced_servers(ctx, by, kinds):
     return {k: v for k, v in by.items() if k[0] in again}
 
 
+def membership_replay(ctx):
+    """Membership!ViewOK on the real cluster.Conn + raft.NodesManager: random membership logs (joins from a new address
+    every time, leaves) on three address books - every entry; prefix + snapshot of a later index + rest; snapshot + rest -
+    which must all equal the fold of the log (MembershipReplayTrace)."""
+    memb = ctx.go_build("cmd/memb", "memb")
+    tr = ctx.path("membreplay.ndjson")
+    nlogs = 600 if ctx.tier == "quick" else 6000
+    ctx.run([memb, tr, str(ctx.seed), str(nlogs)], timeout=900)
+    v, n = vlib.validate_trace(ctx, "MembershipReplayTrace", "MembershipReplayTrace.cfg", tr, lambda l: True, chunk_events=300)
+    evs = vlib.read_ndjson(tr)
+    by = {}
+    for x in v:
+        by.setdefault(x[1] if "@" in x[1] else x[1] + "@membership-replay", []).append(evs[x[0]])
+    for sig in sorted(by):
+        e = min(by[sig], key=lambda z: len(z["log"]))
+        ctx.finding(sig, "%s: log %s, the member had applied %d entries, snapshot taken at %d: every entry -> %s; prefix + snapshot + rest -> %s; snapshot + rest -> %s (%d such logs)"
+                    % (sig, json.dumps(e["log"])[:400], e["cut"], e["snapat"], json.dumps(e["a"]), json.dumps(e["b"]), json.dumps(e["c"]), len(by[sig])), {"event": e})
+    ctx.log("%d membership logs on three real address books (replay / prefix+snapshot / snapshot): %d failed checks" % (n, len(v)))
+    ctx.cov["membership_logs_replayed"] = n
+    mut = json.loads(json.dumps(evs[:20]))
+    mut[3]["b"]["9"] = "10.0.9.9:6000"
+    p = ctx.path("selfmemb.ndjson")
+    open(p, "w").writelines(json.dumps(e) + "\n" for e in mut)
+    v2, _ = vlib.validate_trace(ctx, "MembershipReplayTrace", "MembershipReplayTrace.cfg", p, lambda l: True)
+    ctx.cov["binding_selftest"]["extra_member_after_snapshot_rejected"] = any(x[1].startswith("RemovedStillListed") for x in v2)
+    if not ctx.cov["binding_selftest"]["extra_member_after_snapshot_rejected"]:
+        raise vlib.NoVerdict("binding self-test failed: an extra member after the snapshot was accepted")
+
+
 def catalogue_replay(ctx):
     """Catalogue!Agree / SnapOK on the real storage.DatasetManager: random logs of create / delete / add-node /
     remove-node entries applied to three managers - whole log; prefix + snapshot of a later index + rest; snapshot
@@ -171,6 +200,8 @@ def run_family(ctx):
     ctx.cov["exhaustive"] = True
     if ctx.pid == "C14":
         catalogue_replay(ctx)
+    else:
+        membership_replay(ctx)
     trace, res = run_scenarios(ctx, 1 if quick else 4)
     by, other, lines, viols = signatures_of(ctx, trace, set(KINDS[ctx.pid]))
     if other:
